@@ -1,16 +1,4 @@
-"""Kernel specifications: which pieces of /repo are regenerated into coq/Gen."""
-
-K_restart = dict(
-    name='K_restart',
-    file='billiard/common.py',
-    state=['self.R', 'self.T', 'self.maxR', 'self.maxT'],
-    raises={'self.RestartFreqExceeded': 'RestartFreqExceeded'},
-    funcs=[
-        dict(qual='restart_state.step', coqname='step', params=['now'],
-             # `now = monotonic() if now is None else now`: the clock is a parameter
-             exprs={'monotonic()': 'mono'}, extra_params=['mono']),
-    ],
-)
+"""K2: pool.LaxBoundedSemaphore"""
 
 K_laxsem = dict(
     name='K_laxsem',
@@ -47,4 +35,4 @@ Definition fuel_clear (s : st) : nat :=
   end.
 '''
 
-ALL = {k['name']: k for k in [K_restart, K_laxsem]}
+KERNELS = [K_laxsem]
